@@ -69,8 +69,94 @@ def stacked_reads(rng, sc, sample, chrom, n, first, nstack, prefix):
     return reads
 
 
+def make_junction_spec(rng, k, junctions, family="single", tag="PS", dup=0):
+    """Reads engineered so that the only read linking two groups of variants exceeds the coverage cap k and is dropped
+    by read selection.  One junction = an 'onion': a centre block C covered by one read M, wrapped by `layers` nested
+    paired-end reads (layer j covers block L_j left and block R_j right of the centre and spans everything in between), and
+    link reads of two variants (last variant of the inner left block + first variant of C, and/or last of C + first of the
+    inner right block).  With layers = k-1 the coverage on C is k and every link read is rejected; with fewer layers
+    (control junctions) the link read is taken by the bridging step.  For k = 1 a plain neighbour block takes the place
+    of the innermost layer.  junctions: list of dicts(layers, bs, links=['L','R'])."""
+    bs_total = sum((2 * max(j["layers"], 1) + 1) * j["bs"] for j in junctions)
+    spec = make_spec(rng, trio=False, k=k, nvars=bs_total, depth_reads=0, paired_fraction=0.0, het_fraction=1.0, tag=tag,
+                     genetic=True, phased_input=False, nchrom=rng.choice([1, 2]), low_cov_gaps=False, min_gap=25,
+                     len_range=[60, 200])
+    spec["family"] = family
+    spec["kinds"] = ["snv"]
+    spec["junctions"] = junctions
+    spec["dup"] = dup
+    return spec
+
+
+def _segment(sc, chrom, alleles, i, j, rng):
+    vs, ref = sc.variants[chrom], sc.ref[chrom]
+    s = max(0, vs[i].pos - rng.randint(5, 10))
+    e = min(len(ref) - 1, vs[j].pos + len(vs[j].ref) + rng.randint(5, 10))
+    seq, cig = synth.hap_walk(ref, vs, alleles, s, e)
+    return s, seq, cig
+
+
+def junction_reads(rng, sc, sample, chrom, junctions, dup):
+    """returns (reads, link_read_names)"""
+    reads, links = [], []
+    haps = sc.haps[sample][chrom]
+    nv = len(sc.variants[chrom])
+    base = 0
+    cnt = 0
+
+    def single(i, j, tagname):
+        nonlocal cnt
+        h = rng.randint(0, 1)
+        s, seq, cig = _segment(sc, chrom, [x[h] for x in haps], i, j, rng)
+        name = f"{sample}_{chrom}_{tagname}{cnt}"
+        cnt += 1
+        reads.append(dict(name=name, sample=sample, chrom=chrom, start=s, cigar=cig, seq=seq, qual=30, hap=h, flag=0))
+        return name
+
+    def paired(i1, j1, i2, j2, tagname):
+        nonlocal cnt
+        h = rng.randint(0, 1)
+        al = [x[h] for x in haps]
+        s1, seq1, cig1 = _segment(sc, chrom, al, i1, j1, rng)
+        s2, seq2, cig2 = _segment(sc, chrom, al, i2, j2, rng)
+        name = f"{sample}_{chrom}_{tagname}{cnt}"
+        cnt += 1
+        reads.append(dict(name=name, sample=sample, chrom=chrom, start=s1, cigar=cig1, seq=seq1, qual=30, hap=h,
+                          flag=0x1 | 0x2 | 0x40 | 0x20, mate_start=s2))
+        reads.append(dict(name=name, sample=sample, chrom=chrom, start=s2, cigar=cig2, seq=seq2, qual=30, hap=h,
+                          flag=0x1 | 0x2 | 0x80 | 0x10, mate_start=s1))
+        return name
+
+    for jn in junctions:
+        layers, bs = jn["layers"], jn["bs"]
+        nl = max(layers, 1)                      # blocks on each side of the centre
+        width = (2 * nl + 1) * bs
+        if base + width > nv:
+            break
+        left = lambda j: base + (nl - j) * bs    # first variant of L_j (j = 1 innermost)
+        centre = base + nl * bs
+        right = lambda j: centre + j * bs        # first variant of R_j
+        for _ in range(1 + dup):
+            single(centre, centre + bs - 1, "M")
+        if layers == 0:
+            # plain neighbour blocks on both sides
+            single(left(1), left(1) + bs - 1, "N")
+            single(right(1), right(1) + bs - 1, "N")
+        for j in range(1, layers + 1):
+            for _ in range(1 + (dup if j == 1 else 0)):
+                paired(left(j), left(j) + bs - 1, right(j), right(j) + bs - 1, f"P{j}_")
+        if "L" in jn["links"]:
+            links.append(single(centre - 1, centre, "X"))
+        if "R" in jn["links"]:
+            links.append(single(centre + bs - 1, centre + bs, "X"))
+        base += width
+    return reads, links
+
+
 def family_samples(spec):
     fam = spec.get("family")
+    if fam == "unrelated":
+        return ["S1", "S2"]
     if fam == "quartet":
         return QUARTET
     if fam == "single":
@@ -97,6 +183,10 @@ def build_inputs(spec, wd):
     stacked = spec.get("stacked")
     for si, s in enumerate(samples):
         for c in sc.chroms:
+            if spec.get("junctions"):
+                rs, _ = junction_reads(rng, sc, s, c, spec["junctions"], spec.get("dup", 0))
+                reads += rs
+                continue
             if stacked and stacked["counts"][si] is not None:
                 nv = len(sc.variants[c])
                 nst = min(stacked["nstack"], nv)
